@@ -6,6 +6,9 @@ import (
 	"flag"
 	"fmt"
 	"math/rand"
+	"runtime"
+	"strconv"
+	"strings"
 	"sync"
 	"time"
 
@@ -194,16 +197,192 @@ func scriptedCases() []*pipeCase {
 	return out
 }
 
+// pipelineSetGate installs the gate function of the pipeline state machine (query.VerifGate, point
+// "completeStage.unlocked": completeStage released the mutex and has not decremented pending yet). It is set by
+// pipeline_gate.go, which needs the gate hook in package query; without it the gate never fires: completeStage then
+// runs from its lock section to its end in one scheduler step and no Unlocked event is recorded (Reset.gate = false).
+var pipelineSetGate func(fn func(point string))
+
+// pipeGoid: the id of the calling goroutine (the gate function gets no argument that identifies the stage; the
+// stage is the one whose Complete() this goroutine ran last, inside the lock section of the same completeStage call).
+func pipeGoid() int64 {
+	var buf [64]byte
+	f := strings.Fields(string(buf[:runtime.Stack(buf[:], false)]))
+	if len(f) < 2 {
+		return -1
+	}
+	id, _ := strconv.ParseInt(f[1], 10, 64)
+	return id
+}
+
+// finishOrders: every order of the lock sections ("L:x") and decrements ("D:x") of the completeStage calls of the
+// stages r (root, plans its children first: L:r comes first) and kids, with L:x before D:x.
+func finishOrders(kids []string) [][]string {
+	toks := []string{"D:r"}
+	for _, k := range kids {
+		toks = append(toks, "L:"+k, "D:"+k)
+	}
+	var out [][]string
+	used := make([]bool, len(toks))
+	var cur []string
+	var gen func()
+	gen = func() {
+		if len(cur) == len(toks) {
+			out = append(out, append([]string{"L:r"}, cur...))
+			return
+		}
+		for i, t := range toks {
+			if used[i] {
+				continue
+			}
+			if t[0] == 'D' && t != "D:r" {
+				locked := false
+				for _, c := range cur {
+					if c == "L:"+t[2:] {
+						locked = true
+					}
+				}
+				if !locked {
+					continue
+				}
+			}
+			used[i] = true
+			cur = append(cur, t)
+			gen()
+			cur = cur[:len(cur)-1]
+			used[i] = false
+		}
+	}
+	gen()
+	return out
+}
+
+// finishCase: stage r with the asynchronous children kids; one child fails (error or panic), the others succeed.
+type finishCase struct {
+	c     *pipeCase
+	order []string
+}
+
+// finishCases: concurrently finishing stages, one failing, in every order of their lock sections and decrements:
+// r -> a (3 orders), r -> (a, b) (30 orders x failing child x r inline / on the pool), r -> (a, b, c) (630 orders,
+// a seeded sample of them). Without the gate the decrements cannot be placed: the orders collapse to the orders of
+// the lock sections (duplicates dropped).
+func finishCases(rng *rand.Rand, sample int, gated bool) []finishCase {
+	var out []finishCase
+	seen := map[string]bool{}
+	add := func(rAsync bool, kids []string, failing int, how string, order []string) {
+		c := newPipeCase()
+		c.addStage("r", rAsync, nd("ok"), kids...)
+		for i, k := range kids {
+			if i == failing {
+				c.addStage(k, true, nd("none", nd("ok"), nd(how)))
+			} else {
+				c.addStage(k, true, nd("ok"))
+			}
+		}
+		c.Root = "r"
+		if !gated {
+			var o []string
+			for _, t := range order {
+				if t[0] != 'D' {
+					o = append(o, t)
+				}
+			}
+			order = o
+		}
+		key := c.key() + fmt.Sprint(order)
+		if seen[key] {
+			return
+		}
+		seen[key] = true
+		out = append(out, finishCase{c, order})
+	}
+	for _, o := range finishOrders([]string{"a"}) {
+		add(false, []string{"a"}, 0, "err", o)
+		add(true, []string{"a"}, 0, "panic", o)
+	}
+	for i, o := range finishOrders([]string{"a", "b"}) {
+		for f := 0; f < 2; f++ {
+			for _, ra := range []bool{false, true} {
+				how := "err"
+				if (i+f)%5 == 4 {
+					how = "panic"
+				}
+				add(ra, []string{"a", "b"}, f, how, o)
+			}
+		}
+	}
+	all := finishOrders([]string{"a", "b", "c"})
+	for i, j := range rng.Perm(len(all)) {
+		if i >= sample {
+			break
+		}
+		add(i%2 == 1, []string{"a", "b", "c"}, i%3, "err", all[j])
+	}
+	return out
+}
+
+// orderPick drives the scheduler through `order`: the next lock section / decrement of the order is released as soon
+// as its thread is parked in front of it; parked threads that are not in front of a step of the order run first
+// (planning, operators); *missed counts the steps that could not be placed (the thread of the step never arrived
+// while every other thread was parked in front of a later step).
+func orderPick(order []string, missed *int) func(ids []string, labels map[string]string) string {
+	rest := append([]string{}, order...)
+	at := func(label string) string { // the step of the order a thread parked at `label` is in front of
+		switch {
+		case strings.HasPrefix(label, "next:"):
+			return "L:" + label[5:]
+		case strings.HasPrefix(label, "fail:"):
+			return "L:" + label[5:]
+		case strings.HasPrefix(label, "unl:"):
+			return "D:" + label[4:]
+		}
+		return ""
+	}
+	return func(ids []string, labels map[string]string) string {
+		pending := map[string]bool{}
+		for _, t := range rest {
+			pending[t] = true
+		}
+		for len(rest) > 0 {
+			for _, id := range ids {
+				if at(labels[id]) == rest[0] {
+					rest = rest[1:]
+					return id
+				}
+			}
+			for _, id := range ids {
+				if !pending[at(labels[id])] {
+					return id
+				}
+			}
+			// nobody can move without leaving the order: give the step up
+			*missed++
+			delete(pending, rest[0])
+			rest = rest[1:]
+		}
+		return ids[0]
+	}
+}
+
 type pipeResult struct {
 	calls    int
 	err      bool
 	quiesced bool
 	schedule []string
+	missed   int // steps of a scripted order that could not be placed
 }
 
-func runPipeCase(rec *trace.Recorder, c *pipeCase, seed int64, free bool) pipeResult {
+func runPipeCase(rec *trace.Recorder, c *pipeCase, seed int64, free bool, order []string) pipeResult {
 	sc := sched.New(seed)
 	sc.Free = free
+	res := pipeResult{}
+	if len(order) > 0 {
+		sc.Pick = orderPick(order, &res.missed)
+		// no gate is inside a critical section: a released thread always parks again or finishes, a slow one is
+		// not blocked (the order must not be disturbed by releasing a second thread on a loaded machine)
+		sc.StepWait = 2 * time.Second
+	}
 	parent := map[string]string{}
 	for p, cs := range c.Children {
 		for _, ch := range cs {
@@ -220,12 +399,36 @@ func runPipeCase(rec *trace.Recorder, c *pipeCase, seed int64, free bool) pipeRe
 		}
 		return "main"
 	}
+	gated := pipelineSetGate != nil
+	if order == nil {
+		order = []string{}
+	}
 	rec.Reset(trace.F{"children": c.Children, "async": c.Async, "outcome": c.Outcome, "root": c.Root,
-		"pkids": c.PKids, "pout": c.POut, "proot": c.PRoot, "flavor": c.Flavor})
+		"pkids": c.PKids, "pout": c.POut, "proot": c.PRoot, "flavor": c.Flavor, "gate": gated, "order": order})
 
 	var mu sync.Mutex
-	res := pipeResult{}
 	ctx := context.Background()
+	// the gate between the unlock and the decrement of completeStage: one Unlocked event, one scheduler step
+	var gmu sync.Mutex
+	marked := map[int64]string{} // goroutine -> the stage whose lock section it has just left
+	if gated {
+		pipelineSetGate(func(point string) {
+			if point != "completeStage.unlocked" {
+				return
+			}
+			g := pipeGoid()
+			gmu.Lock()
+			s, ok := marked[g]
+			delete(marked, g)
+			gmu.Unlock()
+			if !ok {
+				return
+			}
+			rec.Emit("Unlocked", trace.F{"s": s})
+			sc.Yield(owner(s), "unl:"+s)
+		})
+		defer pipelineSetGate(nil)
+	}
 	var mk func(s string) stagepkg.Stage
 	mk = func(s string) stagepkg.Stage {
 		// the plan tree of the stage: real plan nodes, scripted operators
@@ -286,7 +489,15 @@ func runPipeCase(rec *trace.Recorder, c *pipeCase, seed int64, free bool) pipeRe
 				return out
 			},
 			OnIdentifier: func() { rec.Emit("Register", trace.F{"s": s}) },
-			OnComplete:   func() { rec.Emit("FinMark", trace.F{"s": s}) },
+			OnComplete: func() {
+				// called by completeStage inside its lock section
+				if gated {
+					gmu.Lock()
+					marked[pipeGoid()] = s
+					gmu.Unlock()
+				}
+				rec.Emit("FinMark", trace.F{"s": s})
+			},
 			Wrap: func(complete func(), fail func(error)) (func(), func(error)) {
 				if c.Async[s] {
 					sc.Spawn(s)
@@ -334,9 +545,9 @@ func runPipeCase(rec *trace.Recorder, c *pipeCase, seed int64, free bool) pipeRe
 	ok := sc.Run()
 	res.quiesced = ok
 	res.schedule = sc.Choices
-	if !ok {
-		sc.ReleaseAll()
-	}
+	// a thread that comes back to a gate after the scheduler has finished (code that calls a handler of a finished
+	// stage once more) must not park for ever on a worker of the shared pool: from here on the gates are open
+	sc.ReleaseAll()
 	mu.Lock()
 	rec.Emit("Quiesce", trace.F{"timeout": !ok, "calls": res.calls})
 	mu.Unlock()
@@ -350,6 +561,7 @@ func pipelineMain(args []string) int {
 	n := fs.Int("traces", 200, "number of random cases")
 	maxStages := fs.Int("stages", 5, "max stages per tree")
 	free := fs.Bool("free", false, "free-running (no gates)")
+	orders := fs.Int("orders", 60, "sample of the 630 finishing orders of three concurrent stages")
 	_ = fs.Parse(args)
 	rec, err := trace.New(*out)
 	if err != nil {
@@ -361,9 +573,30 @@ func pipelineMain(args []string) int {
 	distinct := map[string]bool{}
 	scripted := 0
 	for _, c := range scriptedCases() {
-		r := runPipeCase(rec, c, rng.Int63(), *free)
+		r := runPipeCase(rec, c, rng.Int63(), *free, nil)
 		distinct[c.key()+fmt.Sprint(r.schedule)] = true
 		scripted++
+	}
+	// concurrently finishing stages, one failing: every order of the lock sections and decrements of completeStage
+	finishing, missed, stuck := 0, 0, 0
+	const maxStuck = 25 // every stuck case costs seconds and is a rejected trace: that many are evidence enough
+	if !*free {
+		for _, fc := range finishCases(rng, *orders, pipelineSetGate != nil) {
+			r := runPipeCase(rec, fc.c, rng.Int63(), false, fc.order)
+			distinct[fc.c.key()+fmt.Sprint(r.schedule)] = true
+			finishing++
+			if r.missed > 0 && r.quiesced {
+				missed++
+			}
+			if !r.quiesced {
+				if stuck++; stuck > maxStuck {
+					break
+				}
+			}
+		}
+		if missed > 0 {
+			sum.Unresolved = append(sum.Unresolved, fmt.Sprintf("%d of %d finishing orders could not be scheduled", missed, finishing))
+		}
 	}
 	for i := 0; i < *n; i++ {
 		k := 1 + rng.Intn(*maxStages)
@@ -372,7 +605,13 @@ func pipelineMain(args []string) int {
 			pe, pp = 0.0, 0.0
 		}
 		c := genCase(rng, k, pe, pp)
-		r := runPipeCase(rec, c, rng.Int63(), *free)
+		if stuck > maxStuck {
+			break
+		}
+		r := runPipeCase(rec, c, rng.Int63(), *free, nil)
+		if !r.quiesced {
+			stuck++
+		}
 		nontrivial := k >= 2
 		if nontrivial {
 			distinct[c.key()+fmt.Sprint(r.schedule)] = true
@@ -384,7 +623,8 @@ func pipelineMain(args []string) int {
 	_ = rec.Close()
 	sum.Traces, sum.Events = rec.Counts()
 	sum.Distinct = len(distinct)
-	sum.Extra = map[string]any{"scripted_plan_tree_cases": scripted}
+	sum.Extra = map[string]any{"scripted_plan_tree_cases": scripted, "finishing_orders": finishing,
+		"completeStage_gate": pipelineSetGate != nil}
 	sum.Print()
 	return 0
 }
